@@ -1,0 +1,246 @@
+//! Verification seam for the registry resolver (feature `verif-hooks` only).
+//!
+//! With the feature enabled, `registry.rs` names the types in this module
+//! instead of `warg_client::{Client, ClientError, Config, FileSystemClient}`
+//! and `tokio::spawn`. Every member forwards to a [`SimRegistry`] installed
+//! per thread by a simulator; this module contains no policy of its own
+//! (no latency, ordering, faults or answers).
+//!
+//! The feature is off by default and nothing here is compiled without it.
+
+use semver::{Version, VersionReq};
+use std::{
+    cell::RefCell,
+    future::Future,
+    path::PathBuf,
+    pin::Pin,
+    rc::Rc,
+    task::{Context, Poll, Waker},
+};
+use warg_protocol::registry::PackageName;
+
+/// A boxed, non-`Send` future (everything runs on one simulated thread).
+pub type BoxFut<T> = Pin<Box<dyn Future<Output = T>>>;
+
+/// The transport, remote party and task runtime as seen by `registry.rs`.
+pub trait SimRegistry {
+    /// Counterpart of `warg_client::Client::fetch_packages`.
+    fn fetch_packages(&self, names: Vec<PackageName>) -> BoxFut<Result<(), ClientError>>;
+    /// Counterpart of `warg_client::Client::download_exact`.
+    fn download_exact(
+        &self,
+        name: PackageName,
+        version: Version,
+    ) -> BoxFut<Result<PackageDownload, ClientError>>;
+    /// Counterpart of `warg_client::Client::download`.
+    fn download(
+        &self,
+        name: PackageName,
+        requirement: VersionReq,
+    ) -> BoxFut<Result<Option<PackageDownload>, ClientError>>;
+    /// Counterpart of `tokio::spawn`: hands a task to the simulator's executor.
+    ///
+    /// Dropping the task before it completes makes its `JoinHandle` yield a `JoinError`.
+    fn spawn(&self, task: BoxFut<()>);
+}
+
+thread_local! {
+    static INSTALLED: RefCell<Option<Rc<dyn SimRegistry>>> = const { RefCell::new(None) };
+}
+
+/// Uninstalls the simulated registry of the current thread when dropped.
+pub struct Guard(());
+
+impl Drop for Guard {
+    fn drop(&mut self) {
+        INSTALLED.with(|i| *i.borrow_mut() = None);
+    }
+}
+
+/// Installs the simulated registry for the current thread.
+pub fn install(sim: Rc<dyn SimRegistry>) -> Guard {
+    INSTALLED.with(|i| *i.borrow_mut() = Some(sim));
+    Guard(())
+}
+
+fn installed() -> Result<Rc<dyn SimRegistry>, ClientError> {
+    INSTALLED
+        .with(|i| i.borrow().clone())
+        .ok_or_else(|| ClientError::Other("no simulated registry installed".into()))
+}
+
+/// Opaque stand-in for `warg_client::Config`.
+#[derive(Debug, Default, Clone)]
+pub struct Config;
+
+/// Stand-in for `warg_client::PackageDownload` (the members `registry.rs` reads).
+#[derive(Debug, Clone)]
+pub struct PackageDownload {
+    /// The version that was downloaded.
+    pub version: Version,
+    /// The path of the downloaded content.
+    pub path: PathBuf,
+}
+
+/// Stand-in for `warg_client::ClientError` (the variants `registry.rs` matches, plus one opaque).
+#[derive(Debug, thiserror::Error)]
+pub enum ClientError {
+    /// The package does not exist.
+    #[error("package `{name}` does not exist")]
+    PackageDoesNotExist {
+        /// The missing package.
+        name: PackageName,
+        /// Mirrors the upstream field; unused.
+        has_auth_token: bool,
+    },
+    /// The package version does not exist.
+    #[error("version `{version}` of package `{name}` does not exist")]
+    PackageVersionDoesNotExist {
+        /// The missing version.
+        version: Version,
+        /// The package.
+        name: PackageName,
+    },
+    /// Any other client or transport failure.
+    #[error("{0}")]
+    Other(String),
+}
+
+/// Stand-in for `warg_client::Client`.
+pub struct Client(Rc<dyn SimRegistry>);
+
+/// Stand-in for `warg_client::FileSystemClient`.
+pub type FileSystemClient = Client;
+
+impl Client {
+    /// Counterpart of `Client::new_with_default_config`.
+    pub async fn new_with_default_config(_url: Option<&str>) -> Result<Self, ClientError> {
+        Ok(Self(installed()?))
+    }
+
+    /// Counterpart of `Client::new_with_config`.
+    pub async fn new_with_config(
+        _url: Option<&str>,
+        _config: &Config,
+        _auth_token: Option<()>,
+    ) -> Result<Self, ClientError> {
+        Ok(Self(installed()?))
+    }
+
+    /// Counterpart of `Client::fetch_packages`.
+    pub async fn fetch_packages<'a>(
+        &self,
+        names: impl IntoIterator<Item = &'a PackageName>,
+    ) -> Result<Vec<()>, ClientError> {
+        let names: Vec<PackageName> = names.into_iter().cloned().collect();
+        let count = names.len();
+        self.0.fetch_packages(names).await?;
+        Ok(vec![(); count])
+    }
+
+    /// Counterpart of `Client::download_exact`.
+    pub async fn download_exact(
+        &self,
+        package: &PackageName,
+        version: &Version,
+    ) -> Result<PackageDownload, ClientError> {
+        self.0.download_exact(package.clone(), version.clone()).await
+    }
+
+    /// Counterpart of `Client::download`.
+    pub async fn download(
+        &self,
+        package: &PackageName,
+        requirement: &VersionReq,
+    ) -> Result<Option<PackageDownload>, ClientError> {
+        self.0.download(package.clone(), requirement.clone()).await
+    }
+}
+
+/// Stand-in for the `tokio` items `registry.rs` names (`tokio::spawn`).
+pub mod tokio {
+    use super::*;
+
+    struct JoinState<T> {
+        result: Option<Result<T, JoinError>>,
+        waker: Option<Waker>,
+    }
+
+    /// Completes the join state with an error if the task is dropped unfinished.
+    struct Completion<T>(Rc<RefCell<JoinState<T>>>);
+
+    impl<T> Completion<T> {
+        fn set(&self, result: Result<T, JoinError>) {
+            let waker = {
+                let mut state = self.0.borrow_mut();
+                if state.result.is_some() {
+                    return;
+                }
+                state.result = Some(result);
+                state.waker.take()
+            };
+            if let Some(waker) = waker {
+                waker.wake();
+            }
+        }
+    }
+
+    impl<T> Drop for Completion<T> {
+        fn drop(&mut self) {
+            self.set(Err(JoinError(())));
+        }
+    }
+
+    /// Stand-in for `tokio::task::JoinError`.
+    #[derive(Debug)]
+    pub struct JoinError(());
+
+    impl std::fmt::Display for JoinError {
+        fn fmt(&self, f: &mut std::fmt::Formatter<'_>) -> std::fmt::Result {
+            write!(f, "task was cancelled")
+        }
+    }
+
+    impl std::error::Error for JoinError {}
+
+    /// Stand-in for `tokio::task::JoinHandle`.
+    pub struct JoinHandle<T>(Rc<RefCell<JoinState<T>>>);
+
+    impl<T> Future for JoinHandle<T> {
+        type Output = Result<T, JoinError>;
+
+        fn poll(self: Pin<&mut Self>, cx: &mut Context<'_>) -> Poll<Self::Output> {
+            let mut state = self.0.borrow_mut();
+            match state.result.take() {
+                Some(result) => Poll::Ready(result),
+                None => {
+                    state.waker = Some(cx.waker().clone());
+                    Poll::Pending
+                }
+            }
+        }
+    }
+
+    /// Counterpart of `tokio::spawn` (no `Send` bound: one simulated thread).
+    pub fn spawn<F>(future: F) -> JoinHandle<F::Output>
+    where
+        F: Future + 'static,
+        F::Output: 'static,
+    {
+        let state = Rc::new(RefCell::new(JoinState {
+            result: None,
+            waker: None,
+        }));
+        let completion = Completion(state.clone());
+        let task: BoxFut<()> = Box::pin(async move {
+            let output = future.await;
+            completion.set(Ok(output));
+        });
+        match installed() {
+            Ok(sim) => sim.spawn(task),
+            // No simulator: dropping the task reports a `JoinError` to the handle.
+            Err(_) => drop(task),
+        }
+        JoinHandle(state)
+    }
+}
